@@ -28,10 +28,10 @@ ASSUME_DISK = [
 CHECKS = {
     "C02": {
         "level": "exploration",
-        "quick": {"runs": 12000, "wall_s": 60},
+        "quick": {"runs": 8000, "wall_s": 60},
         "thorough": {"runs": 400000, "wall_s": 1200},
         "rule": "seeded histories over {append, replicate batch, delete-from, hard state, membership, compaction pointer, save-applied, advance, reopen} with alignment-biased payload sizes and swarm-chosen log geometry / disk latencies; after every step the full log, 2 random sub-ranges and the initial state are compared with a reference log; a run is non-trivial when it reopened the store at least once with >= 2 entries in the model; distinct = distinct event-log hash",
-        "probes": ["record_gt_1024", "record_ge_16k", "truncate_nonempty", "pointer_applied", "reopen_catalogue_le_20", "reopen_multi_file", "reopen_3plus_files"],
+        "probes": ["record_gt_1024", "record_ge_16k", "truncate_nonempty", "pointer_applied", "reopen_catalogue_le_20", "reopen_multi_file", "reopen_3plus_files", "record_ends_at_file_end"],
         "assumptions": ASSUME_DISK,
         "real": RIG_L_REAL,
         "stub": RIG_L_STUB,
@@ -65,5 +65,15 @@ CHECKS = {
         "assumptions": ["short reads are injected only into readers that loop over reads (MessageBufReader consumers); FileMessageReader::read_len/read_next issue one read per item and rely on tokio::fs returning full counts below 2 MiB - records above 2 MiB through read_next are out of the explored sizes", "record bodies are PRNG bytes without zeros"],
         "real": ["MessageBufReader, FileMessageReader, write_varint64/read_varint64/inner_sizeof_varint, SnapshotReader, quick-protobuf writers of LogRecord / LogSnapshotItem / SnapshotHeader"],
         "stub": ["tokio::fs -> simtokio::fs (reads return PRNG-short counts when enabled)"],
+    },
+    "C04": {
+        "level": "fault_enumeration",
+        "quick": {"runs": 4000, "wall_s": 90},
+        "thorough": {"runs": 40000, "wall_s": 1500},
+        "rule": "histories of 3..14 operations over {append, replicate, delete-from, hard state, membership, compaction (snapshot file + catalogue + pointer log), snapshot install (create_snapshot, InstallSnapshot, split-off, pointer), save-applied, advance past the flush timer, reopen} are executed once fault-free with PRNG disk latencies, settling after every operation (checkpoint = journal position + reference model); then EVERY prefix of the journal of file mutations (create, write, set_len, rename, unlink, flush marker) - or, above the per-history cap, every prefix adjacent to a non-data mutation plus PRNG positions - is materialised as a disk image and the real recovery is run on it; per image: reopens and answers, log contiguous, every entry equals the state before or after the interrupted operation, entries untouched by the interrupted operation present, last index/term consistent with the readable log, (term, vote) and membership equal to some value written before, last-applied <= max(snapshot, log), a further append at last+1 and a second reopen keep the log; evaluations = histories; non-trivial = at least 10 images checked; distinct = distinct event-log hash; crash images are counted under faults_fired.fault.crash_image",
+        "probes": ["truncate_nonempty", "pointer_applied", "install_pointer_inside", "install_pointer_ahead", "image_catalogue_lists_missing_log"],
+        "assumptions": ASSUME_DISK + ["exhaustive over crash prefixes of each sampled history up to the cap (120 images per history quick, 400 thorough); histories are sampled", "an image whose catalogue lists an already unlinked log file and that then fails a clause is reported under the clause catalogue_lists_missing_log_file (known finding) and its other clauses are not evaluated", "state machine absent (Rig-L): snapshot files carry a header only; the start-up replay into the state machine is covered by C01"],
+        "real": RIG_L_REAL,
+        "stub": RIG_L_STUB,
     },
 }
